@@ -1,6 +1,7 @@
 package props
 
 import (
+	"bytes"
 	"errors"
 	"fmt"
 	"math/big"
@@ -524,6 +525,9 @@ func (b *Byz) CheckResults() {
 					c.Violate("share-mismatch-table/"+b.where(), "honest party %q finished with a share that does not match its table entry\n  alteration: %s by %q in %s", id, b.Applied, b.Cheater, b.AppliedAt)
 				}
 			}
+			if ck0, ck := m.ChainKey(ids[0]), m.ChainKey(id); !bytes.Equal(ck0, ck) {
+				c.Violate("inconsistent-chain-key/"+b.where(), "honest parties %q and %q finished with different chain keys (%x.. / %x..)\n  alteration: %s by %q in %s", ids[0], id, ck0[:minI(4, len(ck0))], ck[:minI(4, len(ck))], b.Applied, b.Cheater, b.AppliedAt)
+			}
 			if sc.Proto == scen.CMP && m.AuxTable(id) != m.AuxTable(ids[0]) {
 				c.Violate("inconsistent-aux-table/"+b.where(), "honest parties %q and %q finished with different auxiliary keys", ids[0], id)
 			}
@@ -651,3 +655,10 @@ func honestSet(b *Byz) map[party.ID]bool {
 }
 
 var c09applied = mut.Result{Op: "replay-under-other-sender"}
+
+func minI(a, b int) int {
+	if a < b {
+		return a
+	}
+	return b
+}
